@@ -1,6 +1,6 @@
 (* Correspondence glue for C11: builder model vs. the client library, then parser model vs. parser. *)
 From Coq Require Import List ZArith NArith Bool.
-From SV Require Import Base.Bytes Hash.Multihash Resolve.Op Jws.Compact Parser.Accept Parser.Builder Corr.Resolve Corr.Parser.
+From SV Require Import Base.Bytes Hash.Multihash Resolve.Op Jws.Compact Parser.Accept Parser.Builder Parser.ViewOfBytes Corr.Resolve Corr.Parser.
 Import ListNotations.
 Local Open Scope Z_scope.
 
@@ -76,10 +76,20 @@ Definition build (b : binfo) : option req_view :=
 
 (* bc_view: view of the request the real builder returned (None = it returned an error);
    bc_parsed: what the real parser made of that request at intake *)
-Record bcase := { bc_proto : pproto; bc_info : binfo; bc_view : option req_view; bc_parsed : option qres; bc_panic : bool }.
+Record bcase := { bc_proto : pproto; bc_info : binfo; bc_view : option req_view; bc_parsed : option qres; bc_panic : bool;
+  (* the request BYTES the real builder returned and the validator's verdict per decoded patch: the view above is also
+     computed inside Coq from them (decoder model), so the harness's decoding of the request is checked, not trusted *)
+  bc_bytes : option bytes; bc_valid : list bool }.
+
+Definition bytes_view_ok (c : bcase) : bool :=
+  match bc_bytes c, bc_view c with
+  | None, None => true
+  | Some b, Some w => req_view_eqb (view_of_request b (bc_valid c) true) w
+  | _, _ => false
+  end.
 
 Definition check_bcase (c : bcase) : bool :=
-  negb (bc_panic c) &&
+  negb (bc_panic c) && bytes_view_ok c &&
   match build (bc_info c), bc_view c with
   | None, None => true
   | Some v, Some w =>
